@@ -11,10 +11,10 @@
 // ---------------------------------------------------------------------------------
 
 //@trusted T5 every callee modelled in this file labels the errors it reports as from_env() / env() (shims/io_errsrc.rs): made by a callee, not by MessageParser
-//@trusted T5 model of the packet source: a MessageReader / PacketParser<MessageReader> is modelled by the ghost sequence pkts() of the (tag, body) packets it delivers through PacketParser::next_owned (empty for a parser that is done, at end of input, and in front of octets that are no legal packet header) and by remaining(), the number of octets it still holds (finite, as in shims/io.rs); a PacketBodyReader handed out by next_owned knows the packet it delivers (pkt()), the packets that FOLLOW THE END of that packet (follow()), whether it is in its sticky State::Error (errored()) and whether its source stands at the end of the packet body (at_end())
+//@trusted T5 model of the packet source: a MessageReader / PacketParser<MessageReader> is modelled by the ghost sequence pkts() of the (tag, body) packets it delivers through PacketParser::next_owned (empty for a parser that is done, at end of input, and in front of octets that are no legal packet header) and by remaining(), the number of octets it still holds (finite, as in shims/io.rs); a PacketBodyReader handed out by next_owned knows the packet it delivers (pkt()), the packets that FOLLOW THE END of that packet (follow()), how many octets of the packet body have not been read yet (left()), whether it is in its sticky State::Error (errored()) and whether its source stands at the end of the packet body (at_end())
 pub ghost struct GPkt { pub tag: Tag, pub body: Seq<u8> }
 
-//@trusted T5 tight(g): the body of packet g is exactly what the per-type parser MessageParser applies to it WITHOUT draining (Signature / OnePassSignature / Esk ::try_from_reader) consumes when it answers Ok; for a packet that is not tight (a Signature / OPS / ESK body longer than its fields) PacketBodyReader::into_inner hands back the source in the middle of the body and the tag-sequence model says nothing about what is parsed next (model outcome Unmodelled; flags, panic freedom and termination are proved for those inputs too)
+//@trusted T5 tight(g): the body of packet g is exactly what the per-type parser MessageParser applies to it (Signature / OnePassSignature / Esk ::try_from_reader) consumes when it answers Ok on the fresh reader of g: no body octet is left unread.  A packet that is not tight (a Signature / OPS / ESK body longer than its fields) must be rejected: MessageParser::ensure_body_consumed (real code, under contract in U49b) does that
 pub uninterp spec fn tight(g: GPkt) -> bool;
 
 #[verifier::external_body]
@@ -46,6 +46,8 @@ impl<'a> PacketBodyReader<MessageReader<'a>> {
     pub uninterp spec fn follow(&self) -> Seq<GPkt>;
     /// octets the underlying source still holds (body octets not yet pulled + everything behind the packet)
     pub uninterp spec fn remaining(&self) -> nat;
+    /// octets of this packet's body that have not been read yet (bodies are shorter than 2^64 octets)
+    pub uninterp spec fn left(&self) -> nat;
     /// State::Error (sticky; into_inner / get_mut / consume panic in it)
     pub uninterp spec fn errored(&self) -> bool;
     /// the underlying source stands exactly at the end of this packet's body
@@ -55,22 +57,24 @@ impl<'a> PacketBodyReader<MessageReader<'a>> {
     #[verifier::external_body]
     pub fn packet_header(&self) -> (r: PacketHeader) ensures r == self.header() { unimplemented!() }
 
-    //@trusted T4 PacketBodyReader::into_inner (packet_body.rs:141) PANICS in State::Error (hence `requires !errored()`: a C04 obligation at every call); otherwise it hands back the source where it stands: at the end of the packet - so that the packets that follow are delivered next - only if the body was read to its end
+    //@trusted T4 PacketBodyReader::into_inner (packet_body.rs:141) PANICS in State::Error (hence `requires !errored()`: a C04 obligation at every call); otherwise it hands back the source where it stands and DROPS what is buffered: only on a body that was read to its end are the packets that follow delivered next.  `requires at_end()` is the C17 obligation of this unit at every call site: into_inner is only ever called on an exhausted body
     #[verifier::external_body]
     pub fn into_inner(self) -> (r: MessageReader<'a>)
-        requires !self.errored()
+        requires
+            !self.errored(),
+            self.at_end(),
         ensures
-            self.at_end() ==> r.pkts() == self.follow(),
+            r.pkts() == self.follow(),
             r.remaining() <= self.remaining(),
     { unimplemented!() }
 
-    //@trusted T4 BufReadParsing::drain on a PacketBodyReader (proved in U45): Ok means the body was read to its end, the reader is in State::Done (not Error) and the source stands at the end of the packet; Err leaves the reader in its error state; nothing is pushed back into the source
+    //@trusted T4 BufReadParsing::drain on a PacketBodyReader (proved in U45): Ok(n) means the n octets of the body that were still unread have been read, the reader is in State::Done (not Error) and the source stands at the end of the packet; Err (reported by the source / the framing) leaves the reader in its error state; nothing is pushed back into the source
     #[verifier::external_body]
     pub fn drain(&mut self) -> (r: io::Result<u64>)
         ensures
             final(self).header() == old(self).header(), final(self).pkt() == old(self).pkt(), final(self).follow() == old(self).follow(),
             final(self).remaining() <= old(self).remaining(),
-            r is Ok ==> !final(self).errored() && final(self).at_end(),
+            r matches Ok(n) ==> n as nat == old(self).left() && final(self).left() == 0 && !final(self).errored() && final(self).at_end(),
             r matches Err(e) ==> e.env(),
     { unimplemented!() }
 
@@ -99,7 +103,7 @@ pub mod packet {
             ensures r.pkts() == source.pkts(), r.remaining() == source.remaining()
         { unimplemented!() }
 
-        //@trusted T4 PacketParser::next_owned (src/packet/many.rs:92; `mut self` receiver, not under contract in U46): None only from a parser that has nothing to deliver (done); Some(Ok(p)) is the reader for the FIRST packet of pkts(): its header carries that packet's tag, it is fresh (not in State::Error), at least the header octets have left the source, and what follows the packet's end is the rest of pkts(); Some(Err) (no legal header / illegal partial length / source error): nothing is assumed
+        //@trusted T4 PacketParser::next_owned (src/packet/many.rs:92; `mut self` receiver, not under contract in U46): None only from a parser that has nothing to deliver (done); Some(Ok(p)) is the reader for the FIRST packet of pkts(): its header carries that packet's tag, it is fresh (not in State::Error, nothing of the body read), at least the header octets have left the source, and what follows the packet's end is the rest of pkts(); Some(Err) (no legal header / illegal partial length / source error): nothing is assumed
         #[verifier::external_body]
         pub fn next_owned(self) -> (r: Option<Result<PacketBodyReader<MessageReader<'a>>>>)
             ensures
@@ -110,6 +114,7 @@ pub mod packet {
                     &&& p.follow() == self.pkts().skip(1)
                     &&& p.header().spec_tag() == p.pkt().tag
                     &&& !p.errored()
+                    &&& p.left() == p.pkt().body.len()
                     &&& p.remaining() < self.remaining()
                 },
                 r matches Some(Err(e)) ==> e.from_env(),
@@ -119,7 +124,7 @@ pub mod packet {
         pub fn into_inner(self) -> (r: MessageReader<'a>) { unimplemented!() }
     }
 
-    //@trusted T4 Signature::try_from_reader / OnePassSignature::try_from_reader (src/packet/signature/de.rs:30, one_pass_signature.rs:188) at B := &mut PacketBodyReader<MessageReader>: they only READ from the body reader (nothing is pushed back); Ok means every read they issued succeeded, so the reader is not in its error state; they do NOT drain: the source stands at the end of the body only if the packet is tight()
+    //@trusted T4 Signature::try_from_reader / OnePassSignature::try_from_reader (src/packet/signature/de.rs:30, one_pass_signature.rs:188) at B := &mut PacketBodyReader<MessageReader>: they only READ from the body reader (nothing is pushed back); Ok means every read they issued succeeded, so the reader is not in its error state; they do NOT drain: called on the fresh reader of a packet, Ok leaves no body octet unread exactly if the packet is tight() (the definition of tight)
     #[verifier::external_body]
     pub struct Signature { v: u8 }
     #[verifier::external_body]
@@ -131,7 +136,8 @@ pub mod packet {
                 final(i).header() == old(i).header(), final(i).pkt() == old(i).pkt(), final(i).follow() == old(i).follow(),
                 final(i).remaining() <= old(i).remaining(),
                 r is Ok ==> !final(i).errored(),
-                r is Ok && tight(old(i).pkt()) ==> final(i).at_end(),
+                final(i).left() <= old(i).left(),
+                r is Ok && old(i).left() == old(i).pkt().body.len() ==> (final(i).left() == 0 <==> tight(old(i).pkt())),
                 r matches Err(e) ==> e.from_env(),
         { unimplemented!() }
     }
@@ -142,7 +148,8 @@ pub mod packet {
                 final(i).header() == old(i).header(), final(i).pkt() == old(i).pkt(), final(i).follow() == old(i).follow(),
                 final(i).remaining() <= old(i).remaining(),
                 r is Ok ==> !final(i).errored(),
-                r is Ok && tight(old(i).pkt()) ==> final(i).at_end(),
+                final(i).left() <= old(i).left(),
+                r is Ok && old(i).left() == old(i).pkt().body.len() ==> (final(i).left() == 0 <==> tight(old(i).pkt())),
                 r matches Err(e) ==> e.from_env(),
         { unimplemented!() }
     }
@@ -159,7 +166,8 @@ impl Esk {
             final(packet).header() == old(packet).header(), final(packet).pkt() == old(packet).pkt(), final(packet).follow() == old(packet).follow(),
             final(packet).remaining() <= old(packet).remaining(),
             r is Ok ==> !final(packet).errored(),
-            r is Ok && tight(old(packet).pkt()) ==> final(packet).at_end(),
+            final(packet).left() <= old(packet).left(),
+            r is Ok && old(packet).left() == old(packet).pkt().body.len() ==> (final(packet).left() == 0 <==> tight(old(packet).pkt())),
             r matches Err(e) ==> e.from_env(),
     { unimplemented!() }
     #[verifier::external_body]
